@@ -1217,7 +1217,10 @@ func (db *DB) acquireReadLock(ctx context.Context) error {
 	// outlive the caller's context: database/sql rolls a transaction back as
 	// soon as the context it was started with is canceled, which would silently
 	// drop the read lock after a request-scoped sync or checkpoint returns.
-	tx, err := db.db.BeginTx(context.WithoutCancel(ctx), nil)
+	// The same goes for taking the lock: a checkpoint re-acquires it after the
+	// caller may already have given up, and must not be left without it.
+	ctx = context.WithoutCancel(ctx)
+	tx, err := db.db.BeginTx(ctx, nil)
 	if err != nil {
 		return err
 	}
